@@ -1,0 +1,7 @@
+// Copyright (c) 2020, Peter Ohler, All rights reserved.
+
+//go:build !verif
+
+package oj
+
+func verifHook(string, any) {}
